@@ -394,12 +394,14 @@ tdigest<T, A> tdigest<T, A>::deserialize(std::istream& is, const A& allocator) {
     throw std::invalid_argument("preamble longs mismatch: expected " + std::to_string(expected_preamble_longs) + ", actual " + std::to_string(preamble_longs));
   }
   read<uint16_t>(is); // unused
+  if (!is.good()) throw std::runtime_error("error reading from std::istream");
 
   if (is_empty) return tdigest(k, allocator);
 
   const bool reverse_merge = flags_byte & (1 << flags::REVERSE_MERGE);
   if (is_single_value) {
     const T value = read<T>(is);
+    if (!is.good()) throw std::runtime_error("error reading from std::istream");
     return tdigest(reverse_merge, k, value, value, vector_centroid(1, centroid(value, 1), allocator), 1, vector_t(allocator));
   }
 
@@ -408,10 +410,12 @@ tdigest<T, A> tdigest<T, A>::deserialize(std::istream& is, const A& allocator) {
 
   const T min = read<T>(is);
   const T max = read<T>(is);
+  if (!is.good()) throw std::runtime_error("error reading from std::istream");
   vector_centroid centroids(num_centroids, centroid(0, 0), allocator);
   if (num_centroids > 0) read(is, centroids.data(), num_centroids * sizeof(centroid));
   vector_t buffer(num_buffered, 0, allocator);
   if (num_buffered > 0) read(is, buffer.data(), num_buffered * sizeof(T));
+  if (!is.good()) throw std::runtime_error("error reading from std::istream");
   uint64_t weight = 0;
   for (const auto& c: centroids) weight += c.get_weight();
   return tdigest(reverse_merge, k, min, max, std::move(centroids), weight, std::move(buffer));
@@ -489,6 +493,7 @@ tdigest<T, A> tdigest<T, A>::deserialize_compat(std::istream& is, const A& alloc
     const auto max = read_big_endian<double>(is);
     const auto k = static_cast<uint16_t>(read_big_endian<double>(is));
     const auto num_centroids = read_big_endian<uint32_t>(is);
+    if (!is.good()) throw std::runtime_error("error reading from std::istream");
     vector_centroid centroids(num_centroids, centroid(0, 0), allocator);
     uint64_t total_weight = 0;
     for (auto& c: centroids) {
@@ -497,6 +502,7 @@ tdigest<T, A> tdigest<T, A>::deserialize_compat(std::istream& is, const A& alloc
       c = centroid(mean, weight);
       total_weight += weight;
     }
+    if (!is.good()) throw std::runtime_error("error reading from std::istream");
     return tdigest(false, k, min, max, std::move(centroids), total_weight, vector_t(allocator));
   }
   // COMPAT_FLOAT: compatibility with asSmallBytes()
@@ -507,6 +513,7 @@ tdigest<T, A> tdigest<T, A>::deserialize_compat(std::istream& is, const A& alloc
   // they can be derived from k in the constructor
   read<uint32_t>(is); // unused
   const auto num_centroids = read_big_endian<uint16_t>(is);
+  if (!is.good()) throw std::runtime_error("error reading from std::istream");
   vector_centroid centroids(num_centroids, centroid(0, 0), allocator);
   uint64_t total_weight = 0;
   for (auto& c: centroids) {
@@ -515,6 +522,7 @@ tdigest<T, A> tdigest<T, A>::deserialize_compat(std::istream& is, const A& alloc
     c = centroid(mean, weight);
     total_weight += weight;
   }
+  if (!is.good()) throw std::runtime_error("error reading from std::istream");
   return tdigest(false, k, min, max, std::move(centroids), total_weight, vector_t(allocator));
 }
 
